@@ -65,3 +65,30 @@ def decompile(arg: dict) -> dict:
 
 def decompile_many(args: list[dict]) -> list[dict]:
     return [decompile(a) for a in args]
+
+
+def decomp_pipeline(arg: dict) -> dict:
+    """routine set -> real decompiler -> text -> real compiler + repo parser. arg: {"rs", "ssbs"?}
+    returns {"dec": {...}|error, "fallback": bool, "recompiled": {...}|error, "core": core program | None, "ast_error": str}"""
+    from . import astdump
+    from .gen import surface
+    out: dict = {"dec": decompile(arg)}
+    if "error" in out["dec"]:
+        return out
+    text = out["dec"]["text"]
+    out["fallback"] = "is-ssb-script" in text.split("\n", 1)[0]
+    out["recompiled"] = compile_text({"text": text})
+    out["recompiled"].pop("source_map_raw", None)
+    if not out["fallback"] and not arg.get("ssbs"):
+        try:
+            ast = astdump.strip_hints(astdump.dump_text(text))
+            out["ast"] = ast
+            out["core"] = surface.lower_program(ast)
+        except BaseException as e:  # noqa
+            out["core"] = None
+            out["ast_error"] = type(e).__name__ + ": " + str(e)[:200]
+    return out
+
+
+def decomp_pipeline_many(args: list[dict]) -> list[dict]:
+    return [decomp_pipeline(a) for a in args]
